@@ -53,6 +53,10 @@ type Plan struct {
 	// Chunks: buffer sizes handed out (cyclically) to io.ReadAll / io.Copy of the command
 	// through the verifio facade; empty = the standard library's own behaviour.
 	Chunks []int `json:"chunks"`
+	// Chroot: the scenario root becomes the root of the file system of this process (the
+	// control files are opened first), so that "/src" and "/a.css" are inputs directly below
+	// "/" and the working directory is "/" - the layout of a container image
+	Chroot bool `json:"chroot"`
 }
 
 // OpRec is one intercepted operation.
@@ -96,6 +100,7 @@ var (
 	gstates = map[int64]*gstate{}
 	seq     int
 	trace   *os.File
+	resultF *os.File
 	tapePos int
 	res     = Result{Fired: map[string]int{}, SchedHash: 14695981039346656037}
 	lastG   *gstate
@@ -120,6 +125,21 @@ func Start(p *Plan) error {
 	}
 	if p.MaxOps == 0 {
 		p.MaxOps = 400000
+	}
+	if p.Chroot {
+		if p.ResultPath != "" {
+			f, err := os.OpenFile(p.ResultPath, os.O_CREATE|os.O_WRONLY|os.O_TRUNC, 0o644)
+			if err != nil {
+				return err
+			}
+			resultF = f
+		}
+		if err := syscall.Chroot(p.Dir); err != nil {
+			return fmt.Errorf("chroot %s: %v", p.Dir, err)
+		}
+		if err := os.Chdir("/"); err != nil {
+			return err
+		}
 	}
 	simOn = true
 	return nil
@@ -336,6 +356,11 @@ func WriteResult(exit int) {
 		return
 	}
 	b, _ := json.Marshal(&res)
+	if resultF != nil {
+		resultF.Truncate(0)
+		resultF.WriteAt(b, 0)
+		return
+	}
 	os.WriteFile(plan.ResultPath, b, 0o644)
 }
 
